@@ -861,4 +861,233 @@ theorem manyCore_facts (r : Nat) (scale : Int → Int) (ids : List Nat) (ipN : N
       obtain ⟨rfl, _⟩ := h
       exact ⟨rfl, rfl, rfl, Or.inr ⟨hz, fd, rfl, rfl, rfl⟩⟩
 
+/-- an accepted `parse_number`, split after the integer and fraction components, with their closed forms -/
+theorem parseNumber_split (c : Cfg) (hS : RelClass c) (hpre : c.basePrefix = 0)
+    (isPartial : Bool) (o : POpts) (b : Bytes) (neg fv : Bool) (hn : NoSep c b.slc) (n : Number) (cnt : Nat)
+    (h : parseNumber c isPartial o b neg fv = .ok (n, cnt)) :
+    ∃ ip fp, tailOf c isPartial o neg ip fp = .ok (n, cnt) ∧ ip.start = b ∧
+      ip.nDigits = (digitsPrefix c.mantissaRadix (b.slc.drop b.index)).length ∧
+      ip.integerDigits = (b.slc.drop b.index).take (digitsPrefix c.mantissaRadix (b.slc.drop b.index)).length ∧
+      fp.nAfterDot = (fracRun o c b).length ∧
+      fp.fraction = (if hasPoint o c b then some ((b.slc.drop (intEnd c b + 1)).take (fracRun o c b).length) else none) ∧
+      fp.mantissa = foldMantissa c.mantissaRadix (foldMantissa c.mantissaRadix 0
+        (digitsPrefix c.mantissaRadix (b.slc.drop b.index))) (fracRun o c b) ∧
+      fp.exponent = scaleVal c (-((fracRun o c b).length : Int)) := by
+  rw [parseNumber_tail c hS.debug] at h
+  simp only [bind, Except.bind] at h
+  rw [integerPhase_rel c hS b b false hn (LexVerif.Proof.Grammar.prefixPhase_none hpre b)] at h
+  unfold intClosed at h
+  dsimp only at h
+  unfold fracRun hasPoint intEnd
+  generalize hdsI : digitsPrefix c.mantissaRadix (b.slc.drop b.index) = dsI at *
+  by_cases e1 : (c.feats.format && c.requiredIntegerDigits && decide (dsI.length = 0)) = true
+  · rw [if_pos e1] at h; cases h
+  rw [if_neg e1] at h
+  by_cases e2 : (c.feats.format && !false && c.noFloatLeadingZeros &&
+      decide ((List.take dsI.length (List.drop b.index b.slc)).length > 1) &&
+      decide ((List.take dsI.length (List.drop b.index b.slc)).head? = some 48)) = true
+  · rw [if_pos e2] at h; cases h
+  rw [if_neg e2] at h
+  simp only at h
+  rw [fractionPhase_rel c hS o _ _ (by simpa using hn)] at h
+  unfold fracClosed at h
+  simp only [adv_slc, adv_index] at h
+  have hfirst : (adv c Comp.integer dsI.length b).firstIsCased o.dp = (b.slc[b.index + dsI.length]? == some o.dp) := by
+    simp [Bytes.firstIsCased, Bytes.first]
+  rw [hfirst] at h
+  by_cases hdot : (b.slc[b.index + dsI.length]? == some o.dp) = true
+  · rw [if_pos hdot] at h
+    simp only [hdot, if_true]
+    generalize hdsF : digitsPrefix c.mantissaRadix (b.slc.drop (b.index + dsI.length + 1)) = dsF at *
+    by_cases e3 : (c.feats.format && c.requiredFractionDigits && decide (dsF.length = 0)) = true
+    · rw [if_pos e3] at h; cases h
+    rw [if_neg e3] at h
+    simp only at h
+    exact ⟨_, _, h, rfl, rfl, rfl, rfl, rfl, rfl, rfl⟩
+  · rw [if_neg hdot] at h
+    simp only [hdot, Bool.false_eq_true, if_false]
+    simp only at h
+    refine ⟨_, _, h, rfl, rfl, rfl, rfl, rfl, rfl, ?_⟩
+    simp [scaleVal]
+
+/-- `manyClosed`'s second zero count, by cases on where the integer digits end -/
+theorem zfTerm_cases (o : POpts) (hdp : charToDigit o.dp 10 = none) (s : List Nat) (i : Nat) :
+    let rest := s.drop i
+    let nI := (digitsPrefix 10 rest).length
+    let zi := zerosPrefix rest
+    let zf := zerosPrefix (s.drop (if (s[i + zi]? == some o.dp) = true then i + zi + 1 else i + zi))
+    (zi < nI → zf = 0) ∧
+    (zi = nI → (s[i + nI]? == some o.dp) = true → zf = zerosPrefix (s.drop (i + nI + 1))) ∧
+    (zi = nI → ¬ (s[i + nI]? == some o.dp) = true → zf = 0) := by
+  intro rest nI zi zf
+  have hget : ∀ j, s[i + j]? = rest[j]? := fun j => by simp only [rest, List.getElem?_drop]
+  have hdrop : ∀ j, s.drop (i + j) = rest.drop j := fun j => by simp only [rest, List.drop_drop]
+  refine ⟨?_, ?_, ?_⟩
+  · intro hlt
+    have hnotdp : ¬ (s[i + zi]? == some o.dp) = true := by
+      intro hc
+      rw [hget] at hc
+      have hx : rest[zi]? = some o.dp := by simpa using hc
+      have := in_run 10 rest zi o.dp hlt hx
+      rw [hdp] at this; cases this
+    simp only [zf, if_neg hnotdp, hdrop]
+    exact zerosPrefix_drop_self rest
+  · intro he hpt
+    simp only [zf, he, if_pos hpt]
+  · intro he hpt
+    simp only [zf, he, if_neg hpt, hdrop]
+    -- the byte after the digit run is not a digit, so not `'0'`
+    cases hh : (rest.drop nI) with
+    | nil => exact zp_nil
+    | cons x xs =>
+      have := after_run 10 rest x (by simp only [nI] at hh; rw [hh]; rfl)
+      have hx : x ≠ 48 := by
+        intro h48; rw [h48, charToDigit_48 (by decide)] at this; cases this
+      exact zp_cons_ne xs hx
+
+theorem ofDigits_dv_take_drop (radix : Nat) (bs : List Nat) (k : Nat) :
+    ofDigits radix (dv radix bs) =
+      ofDigits radix (dv radix (bs.take k)) * radix ^ (bs.drop k).length + ofDigits radix (dv radix (bs.drop k)) := by
+  conv => lhs; rw [← List.take_append_drop k bs]
+  rw [ofDigits_dv_append]
+
+theorem foldMantissa_small (ds : List Nat) (h : ofDigits 10 ds < 2 ^ 64) : foldMantissa 10 0 ds = ofDigits 10 ds := by
+  by_cases hnil : ds = []
+  · rw [hnil]; rfl
+  · rw [foldMantissa_eq 10 _ 0 hnil, Nat.zero_mul, Nat.zero_add]
+    have : horner 10 ds 0 = ofDigits 10 ds := rfl
+    rw [this]
+    exact Nat.mod_eq_of_lt (by unfold pow2_64; exact h)
+
+/-- value of a non-empty prefix of a digit string whose first byte is a non-zero digit -/
+theorem ofDigits_take_pos {bs : List Nat} {c0 : Nat} {cs : List Nat} (hbs : bs = c0 :: cs) (h48 : c0 ≠ 48)
+    (hc : c0 < 256) (k : Nat) (hk : 0 < k) : 10 ^ ((bs.take k).length - 1) ≤ ofDigits 10 (dv 10 (bs.take k)) := by
+  obtain ⟨k', rfl⟩ : ∃ k', k = k' + 1 := ⟨k - 1, by omega⟩
+  rw [hbs, List.take_succ_cons]
+  simp only [dv, List.map_cons, List.length_cons, Nat.add_sub_cancel]
+  rw [ofDigits_cons, List.length_map]
+  have hd := digitVal_ne_zero (radix := 10) hc h48
+  have : 1 * 10 ^ (cs.take k').length ≤ Binary.digitVal c0 10 * 10 ^ (cs.take k').length :=
+    Nat.mul_le_mul_right _ (by omega)
+  omega
+
+/-- **the truncated words**: whatever branch `manyCore` took, the `mantissa` is the value of the first 19 significant
+digits and the `exponent` places them: `exponent = N − 19 + explicit − #fraction digits` (`N` significant digits) -/
+theorem many_words (int : List Nat) (frac : Option (List Nat)) (E : Int) (mant : Nat) (expo : Int)
+    (hvi : ValidDigits 10 int) (hvf : ∀ fr, frac = some fr → ValidDigits 10 fr)
+    (h256i : ∀ x ∈ int, x < 256) (h256f : ∀ fr, frac = some fr → ∀ x ∈ fr, x < 256)
+    (hN : 19 < (sigBytes int frac).length)
+    (hcase :
+      ((u64Spec 10 (int.drop (zerosPrefix int)) 0 19).2.2 = 0 ∧
+        mant = (u64Spec 10 (int.drop (zerosPrefix int)) 0 19).2.1 ∧
+        expo = ((int.length : Int) - ((zerosPrefix int + (u64Spec 10 (int.drop (zerosPrefix int)) 0 19).1 : Nat) : Int)) + E) ∨
+      ((u64Spec 10 (int.drop (zerosPrefix int)) 0 19).2.2 ≠ 0 ∧ ∃ fd, frac = some fd ∧
+        mant = (u64Spec 10 (fd.drop (if (u64Spec 10 (int.drop (zerosPrefix int)) 0 19).2.1 = 0 then zerosPrefix fd else 0))
+          (u64Spec 10 (int.drop (zerosPrefix int)) 0 19).2.1 (u64Spec 10 (int.drop (zerosPrefix int)) 0 19).2.2).2.1 ∧
+        expo = (-(((if (u64Spec 10 (int.drop (zerosPrefix int)) 0 19).2.1 = 0 then zerosPrefix fd else 0) +
+          (u64Spec 10 (fd.drop (if (u64Spec 10 (int.drop (zerosPrefix int)) 0 19).2.1 = 0 then zerosPrefix fd else 0))
+            (u64Spec 10 (int.drop (zerosPrefix int)) 0 19).2.1 (u64Spec 10 (int.drop (zerosPrefix int)) 0 19).2.2).1 : Nat) : Int)) + E)) :
+    mant = ofDigits 10 (dv 10 ((sigBytes int frac).take 19)) ∧
+    expo = ((sigBytes int frac).length : Int) - 19 + E - ((frac.getD []).length : Int) := by
+  have hzle : zerosPrefix int ≤ int.length := by
+    have := zerosPrefix_le_run (r := 10) (by decide) int
+    exact Nat.le_trans this (digitsPrefix_length_le 10 int)
+  generalize hz : zerosPrefix int = z at *
+  generalize hA : int.drop z = A at *
+  have hAlen : A.length = int.length - z := by rw [← hA, List.length_drop]
+  have hvA : ValidDigits 10 A := by rw [← hA]; exact valid_drop hvi z
+  have hskip : Binary.skipZeros int = A := by rw [skipZeros_eq_drop, hz, hA]
+  obtain ⟨s1, s2⟩ := u64Spec_step 10 A 0 19
+  have sv := u64Spec_value 10 A 0 19
+  -- small values do not wrap
+  have hsmall : ∀ l : List Nat, ValidDigits 10 l → l.length ≤ 19 → foldMantissa 10 0 (dv 10 l) = ofDigits 10 (dv 10 l) := by
+    intro l hv hl
+    apply foldMantissa_small
+    have := ofDigits_dv_lt hv
+    have h19 : 10 ^ l.length ≤ 10 ^ 19 := Nat.pow_le_pow_right (by decide) hl
+    have : (10 : Nat) ^ 19 < 2 ^ 64 := by decide
+    omega
+  have htake_len : ∀ (l : List Nat) k, (l.take k).length ≤ k := fun l k => by rw [List.length_take]; omega
+  rcases hcase with ⟨hu0, hm, he⟩ | ⟨hu0, fd, hfd, hm, he⟩
+  · -- all 19 digits come from the integer part
+    have hA19 : 19 ≤ A.length := by omega
+    have hAne : A ≠ [] := by intro h0; rw [h0] at hA19; simp at hA19
+    have hsig : sigBytes int frac = A ++ frac.getD [] := by
+      unfold sigBytes
+      cases frac with
+      | none => simp [hskip]
+      | some fr => simp only [hskip, if_neg hAne, Option.getD_some]
+    rw [hsig, List.take_append_of_le_length hA19]
+    refine ⟨?_, ?_⟩
+    · rw [hm, sv, Nat.min_eq_left hA19, hsmall _ (valid_take hvA 19) (htake_len _ _)]
+    · rw [he, s2, List.length_append, Nat.min_eq_left hA19]
+      push_cast
+      omega
+  · have hAlt : A.length < 19 := by omega
+    have hk1 : min 19 A.length = A.length := Nat.min_eq_right (by omega)
+    rw [hk1, List.take_of_length_le (Nat.le_refl _), hsmall A hvA (by omega)] at sv
+    have hvfd := hvf fd hfd
+    by_cases hAnil : A = []
+    · -- no significant integer digit: the fraction's leading zeros are skipped
+      have hu1 : (u64Spec 10 A 0 19).2.1 = 0 := by rw [sv, hAnil]; rfl
+      rw [hu1] at hm he
+      simp only [if_true] at hm he
+      have hsig : sigBytes int frac = fd.drop (zerosPrefix fd) := by
+        unfold sigBytes; rw [hfd]; simp only [hskip, hAnil, if_true, skipZeros_eq_drop]
+      rw [hsig] at hN ⊢
+      rw [s1, s2, hk1, hAnil] at hm he
+      simp only [List.length_nil, Nat.sub_zero] at hm he
+      obtain ⟨t1, t2⟩ := u64Spec_step 10 (fd.drop (zerosPrefix fd)) 0 19
+      have tv := u64Spec_value 10 (fd.drop (zerosPrefix fd)) 0 19
+      have hmin : min 19 (fd.drop (zerosPrefix fd)).length = 19 := Nat.min_eq_left (by omega)
+      rw [hmin] at tv
+      refine ⟨?_, ?_⟩
+      · rw [hm, tv, hsmall _ (valid_take (valid_drop hvfd _) 19) (htake_len _ _)]
+      · rw [he, t2, hmin, hfd]
+        simp only [Option.getD_some, List.length_drop] at hN ⊢
+        push_cast
+        have hzf : zerosPrefix fd ≤ fd.length := by
+          have := zerosPrefix_le_run (r := 10) (by decide) fd
+          exact Nat.le_trans this (digitsPrefix_length_le 10 fd)
+        omega
+    · -- some significant integer digits, the rest from the fraction
+      obtain ⟨c0, cs, hAc⟩ : ∃ c0 cs, A = c0 :: cs := by
+        cases A with
+        | nil => exact absurd rfl hAnil
+        | cons c0 cs => exact ⟨c0, cs, rfl⟩
+      have h48 : c0 ≠ 48 := skipZeros_head (by rw [hskip, hAc])
+      have hc0 : c0 < 256 := h256i c0 (by
+        have : c0 ∈ int.drop z := by rw [hA, hAc]; exact List.mem_cons_self ..
+        exact List.mem_of_mem_drop this)
+      have hpos := ofDigits_take_pos hAc h48 hc0 A.length (by rw [hAc]; simp)
+      rw [List.take_of_length_le (Nat.le_refl _)] at hpos
+      have hu1 : (u64Spec 10 A 0 19).2.1 ≠ 0 := by
+        rw [sv]
+        have : 0 < 10 ^ (A.length - 1) := Nat.pow_pos (by decide)
+        omega
+      rw [if_neg hu1] at hm he
+      simp only [List.drop_zero, Nat.zero_add] at hm he
+      have hsig : sigBytes int frac = A ++ fd := by
+        unfold sigBytes; rw [hfd]; simp only [hskip, if_neg hAnil]
+      rw [hsig, List.length_append] at hN
+      rw [hsig]
+      rw [s1, s2, hk1] at hm he
+      obtain ⟨t1, t2⟩ := u64Spec_step 10 fd (u64Spec 10 A 0 19).2.1 (19 - A.length)
+      have tv := u64Spec_value 10 fd (u64Spec 10 A 0 19).2.1 (19 - A.length)
+      have hmin : min (19 - A.length) fd.length = 19 - A.length := Nat.min_eq_left (by omega)
+      rw [hmin] at tv
+      have htk : (A ++ fd).take 19 = A ++ fd.take (19 - A.length) := by
+        rw [List.take_append, List.take_of_length_le (by omega)]
+      refine ⟨?_, ?_⟩
+      · rw [hm, tv, sv, htk]
+        have hvall : ValidDigits 10 (A ++ fd.take (19 - A.length)) := valid_append hvA (valid_take hvfd _)
+        have hlen19 : (A ++ fd.take (19 - A.length)).length ≤ 19 := by
+          rw [List.length_append, List.length_take]; omega
+        rw [← hsmall A hvA (by omega), ← foldMantissa_append, ← hsmall _ hvall hlen19]
+        unfold dv; rw [List.map_append]
+      · rw [he, t2, hmin, hfd, List.length_append]
+        simp only [Option.getD_some]
+        push_cast
+        omega
+
 end LexVerif.Props.C01Number
